@@ -18,7 +18,8 @@ REAL = ["pyvsc coverage model (src/vsc/coverage.py, model/coverpoint*.py, rangel
 STUB = ["user code (generated covergroup classes, callables)", "stdout (sink)"]
 ASSUMPTIONS = ["overlapping ranges inside one bin specification and wildcard bins are outside the "
                "quantifier (not generated)"]
-REQUIRED_NONZERO = {"*": ["samples", "struct_checks", "gated_samples", "outside_samples", "ignore_specs"]}
+REQUIRED_NONZERO = {"*": ["samples", "struct_checks", "gated_samples", "outside_samples", "ignore_specs",
+                          "queries"]}
 
 
 def budget(tier):
@@ -31,7 +32,8 @@ def generate(seed, tier, feats=None, focus="C10"):
     st = Streams(seed)
     rng = st.prog
     f = {"iff": rng.random() < 0.6, "cross": False, "ignore": rng.random() < 0.7,
-         "opts": False, "enums": rng.random() < 0.3, "variants": False, "fn_target": rng.random() < 0.4}
+         "opts": False, "enums": rng.random() < 0.3, "variants": False, "fn_target": rng.random() < 0.4,
+         "share": rng.random() < 0.5}
     if feats:
         f.update(feats)
     prog = covgen.gen_program(rng, f, 1)
@@ -68,6 +70,8 @@ def generate(seed, tier, feats=None, focus="C10"):
         todo = todo[:160]
     for v in todo:
         ops.append({"op": "sample", "i": orng.randrange(n_inst), "vals": v})
+        if orng.random() < 0.08:
+            ops.append({"op": "query", "i": orng.randrange(n_inst)})
     return {"prop": focus, "seed": seed, "prog": prog, "ops": ops}
 
 
